@@ -2,7 +2,7 @@
    assembly, BufRead::lines, find_and_output with both colour arms, prefixes); clap, termcolor and
    the I/O are outside and observed on the real dev and release binaries by ./check C16. *)
 From DV Require Import Model.Base Model.Nfa Model.BwBuild Model.BwSearch Model.Api Model.Spec
-     Model.Cert Model.Cli Model.Utf8 Proofs.CliProps Proofs.Utf8Props Theory.Utf8Spec Proofs.CliColour Proofs.TrieInv Proofs.NoPanic Proofs.CliMain.
+     Model.Cert Model.Cli Model.Utf8 Proofs.CliProps Proofs.Utf8Props Theory.Utf8Spec Proofs.CliColour Proofs.TrieInv Proofs.NoPanic Proofs.CliMain Model.CliRaw Proofs.CliRawMain.
 Local Open Scope N_scope.
 
 (* "the line contains an occurrence of some pattern", on the property's own vocabulary *)
@@ -175,3 +175,48 @@ Example c16_whole_program_observed :
      = [102; 58; 49; 58] ++ ESC_RESET ++ [120] ++ ESC_RED ++ [97; 98; 99] ++ ESC_RESET ++ [120; 10]
        ++ [103; 58; 48; 58] ++ ESC_RESET ++ ESC_RED ++ [98; 99] ++ ESC_RESET ++ [10].
 Proof. vm_compute. repeat split; reflexivity. Qed.
+
+(* ---- beyond the property text: input that is NOT UTF-8 (Model/CliRaw.v) ----------------------------
+   BufRead::lines() hands out an error for a line that is not UTF-8; the program stops reading that
+   source (status 1 for the pattern file and standard input; for a FILE argument the rest of the file
+   is skipped).  (1) On inputs all of whose lines are UTF-8 -- the inputs the property speaks of --
+   that program IS [cli_main], so every theorem above is a theorem about it. *)
+Theorem daacfind_on_bytes_is_daacfind_on_utf8_lines :
+  forall fl pfile pstr stdin files,
+  (forall f, pfile = Some f -> all_lines_utf8 f = true) ->
+  all_lines_utf8 stdin = true -> forallb (fun f => all_lines_utf8 (snd f)) files = true ->
+  cli_main_raw fl pfile pstr stdin files = cli_main fl pfile pstr stdin files.
+Proof. exact cli_main_raw_on_utf8_lines. Qed.
+Print Assumptions daacfind_on_bytes_is_daacfind_on_utf8_lines.
+
+(* (2) On arbitrary bytes it prints exactly the matching lines among the lines handed out before the
+   first line that is not UTF-8 (per source), with the status described above. *)
+Theorem daacfind_on_arbitrary_bytes :
+  forall (fl : cli_flags) (pfile pstr : option (list N)) (stdin : list N) (files : list (list N * list N)),
+  let pats := cli_patterns pfile pstr in
+  (forall p, In p pats -> Forall (fun b => b < 256) p) -> 4 * plain_len pats <= U32_MAX - 1 ->
+  inputs_ok_raw (upvs pats) (cf_color fl) stdin files ->
+  if match pfile with Some f => negb (all_lines_utf8 f) | None => false end
+  then cli_main_raw fl pfile pstr stdin files = Ok ([], 1)
+  else match spec_build_error pats with
+  | Some _ => cli_main_raw fl pfile pstr stdin files = Ok ([], 1)
+  | None => cli_main_raw fl pfile pstr stdin files = Ok (cli_expected_raw (upvs pats) fl stdin files)
+            \/ cli_main_raw fl pfile pstr stdin files = Ok ([], 1)
+  end.
+Proof. exact cli_main_raw_lemma. Qed.
+Print Assumptions daacfind_on_arbitrary_bytes.
+
+(* the lines handed out: a prefix of the lines of the input, all UTF-8, ending at the first line that is not *)
+Theorem lines_handed_out_before_the_first_invalid_line :
+  forall ls, exists rest, ls = fst (valid_prefix ls) ++ rest
+    /\ forallb valid_utf8 (fst (valid_prefix ls)) = true
+    /\ (if snd (valid_prefix ls) then rest = [] else exists l r, rest = l :: r /\ valid_utf8 l = false).
+Proof. exact valid_prefix_spec. Qed.
+Print Assumptions lines_handed_out_before_the_first_invalid_line.
+
+(* Non-vacuity: -p ab -n on standard input "ab\n<FF>\nab\n": the first line is printed, the program
+   ends with status 1 at the line that is not UTF-8 (what the real binary does). *)
+Example c16_raw_observed :
+  cli_main_raw {| cf_color := false; cf_lineno := true; cf_nofilename := false |} None (Some [97; 98])
+               [97; 98; 10; 255; 10; 97; 98; 10] [] = Ok ([48; 58; 97; 98; 10], 1).
+Proof. vm_compute. reflexivity. Qed.
